@@ -46,7 +46,8 @@ func NewFeatureTypeFromProto(t pb.FeatureType) FeatureType {
 	case pb.FeatureType_FeatureTypeExpression:
 		return FeatureTypeExpression
 	}
-	panic(fmt.Sprintf("Invalid pb.FeatureType: %s", t))
+	// Enums are open in proto3, so clients can send values we don't know.
+	return FeatureTypeInvalid
 }
 
 func NewProtoFromFeatureType(t FeatureType) pb.FeatureType {
@@ -206,8 +207,8 @@ func NewPointProtoFromS2LatLng(ll s2.LatLng) *pb.PointProto {
 
 func PointProtoToS2LatLng(point *pb.PointProto) s2.LatLng {
 	return s2.LatLng{
-		Lat: s1.Angle(point.LatE7) * s1.E7,
-		Lng: s1.Angle(point.LngE7) * s1.E7,
+		Lat: s1.Angle(point.GetLatE7()) * s1.E7,
+		Lng: s1.Angle(point.GetLngE7()) * s1.E7,
 	}
 }
 
